@@ -107,7 +107,7 @@ subtree, root), on the inserted tree restricted to the finalized subtree. The mo
 related (`MRef`) throughout. -/
 theorem head_eq_ghost (ops : List Op) (ha : Admissible .none ops) :
     HeadsAgree ops (run .none ops).2 (Spec.run none ops).2 ∧ MRef (run .none ops).1 (Spec.run none ops).1 :=
-  head_eq_ghost_run ops .none none trivial trivial ha
+  head_eq_ghost_run ops .none none trivial trivial trivial ha
 
 /-- non-vacuity: `hist` above is admissible and contains two `head` queries -/
 example : HeadsAgree hist (run .none hist).2 (Spec.run none hist).2 :=
